@@ -157,7 +157,7 @@ thread_local! {
 
 pub fn exec(c: &Value) -> Value {
     if c["kind"] == "far-entry" {
-        #[cfg(feature = "priv_access")]
+        #[cfg(feature = "priv_amd64")]
         {
             let (a, jit) = (c["a"].as_u64().unwrap(), c["tramp"].as_u64().unwrap());
             let o = PAGES.with(|p| {
@@ -176,7 +176,7 @@ pub fn exec(c: &Value) -> Value {
             }
             return json!({"viols": o.viols.iter().map(|v| json!({"prop": v.prop, "key": v.key, "what": v.what})).collect::<Vec<_>>(), "tags": tags, "trace_class": "", "steps": 3});
         }
-        #[cfg(not(feature = "priv_access"))]
+        #[cfg(not(feature = "priv_amd64"))]
         return json!({"viols": [], "tags": ["reduced:no-priv-access"], "trace_class": "", "steps": 0});
     }
     let case = X64Case {
